@@ -61,6 +61,58 @@ func definedCallees(p *Program) map[string]bool {
 	return out
 }
 
+// replacedCalls: callees the function calls less often than on the reference tree (and that
+// still exist) and callees it calls more often (and that already existed) – formatting, logging,
+// metrics, error construction and time keeping aside.
+func replacedCalls(refSig, curSig []string, refDefined, curDefined map[string]bool) (lost, gained []string) {
+	parse := func(sig []string) map[string]int {
+		m := map[string]int{}
+		for _, e := range sig {
+			if i := strings.LastIndex(e, "×"); i >= 0 {
+				n := 0
+				fmt.Sscanf(e[i+len("×"):], "%d", &n)
+				m[e[:i]] = n
+			}
+		}
+		return m
+	}
+	benign := func(id string) bool {
+		for _, p := range []string{"S:fmt.", "S:log.", "S:errors.", "S:time.", "(time.", "S:strings.", "S:strconv.", "google.golang.org/grpc/status", "google.golang.org/grpc/codes", "prometheus", "/pkg/util.StatusWrap", "/pkg/util.StatusFrom", "S:sync.", "(*sync.", "sync/atomic", "S:sort.", "S:slices.", "S:context.", "(context."} {
+			if strings.Contains(id, p) {
+				return true
+			}
+		}
+		name := id
+		if i := strings.LastIndex(name, "."); i >= 0 {
+			name = name[i+1:]
+		}
+		return pureLooking(name) || id == "dyn"
+	}
+	isModuleStatic := func(id string) bool {
+		return strings.HasPrefix(id, "S:") && strings.Contains(id, modPath)
+	}
+	short := func(id string) string {
+		if i := strings.LastIndex(id, "/"); i >= 0 {
+			return id[i+1:]
+		}
+		return id
+	}
+	r, c := parse(refSig), parse(curSig)
+	for id, n := range r {
+		if n > c[id] && !benign(id) && (!isModuleStatic(id) || curDefined[id]) {
+			lost = append(lost, short(id))
+		}
+	}
+	for id, n := range c {
+		if n > r[id] && !benign(id) && (!isModuleStatic(id) || refDefined[id]) {
+			gained = append(gained, short(id))
+		}
+	}
+	sort.Strings(lost)
+	sort.Strings(gained)
+	return
+}
+
 // gateOpen: the function's calls differ from the reference only by calls of functions that
 // exist on both trees (a step was added, removed or replaced) – not by a helper that was
 // extracted (a callee the reference tree does not define) or inlined (a callee the current
@@ -137,6 +189,9 @@ type provWalker struct {
 }
 
 func calleeID(cc *ssa.CallCommon) string {
+	if sc := cc.StaticCallee(); sc != nil && sc.Synthetic == "package initializer" {
+		return "B:init" // an imported package's initialiser: an import was added or removed, nothing else
+	}
 	if cc.IsInvoke() {
 		return "I:" + cc.Method.FullName()
 	}
@@ -162,12 +217,70 @@ func (w *provWalker) addr(a ssa.Value, depth int) {
 		st := x.X.Type().Underlying().(*types.Pointer).Elem().Underlying().(*types.Struct)
 		ci, _ := canonField(x.X.Type(), x.Field)
 		w.roots[fmt.Sprintf("f%d:%s", ci, typeKey(st.Field(x.Field).Type()))] = true
+		// a field of a value the function has just built (a literal, a local struct): what was stored
+		// into *that field* – not what the other fields of the value were initialised with
+		var path []int
+		root := ssa.Value(x)
+		for {
+			if f2, ok := root.(*ssa.FieldAddr); ok {
+				path = append([]int{f2.Field}, path...)
+				root = f2.X
+				continue
+			}
+			break
+		}
+		if al, ok := root.(*ssa.Alloc); ok {
+			w.allocPath(al, path, depth, 0)
+			return
+		}
 		w.addr(x.X, depth)
 	case *ssa.IndexAddr:
 		w.walk(x.Index, depth)
 		w.addr(x.X, depth)
 	default:
 		w.walk(a, depth)
+	}
+}
+
+// isNewField: the struct on the reference tree has no field that corresponds to this one.
+func isNewField(fa *ssa.FieldAddr) bool {
+	ci, _ := canonField(fa.X.Type(), fa.Field)
+	return ci >= 1000
+}
+
+// allocPath: the values stored into the part of a local allocation that is reached from base by
+// the field path – stores to exactly that part, to something inside it, or to a whole that contains it.
+func (w *provWalker) allocPath(base ssa.Value, path []int, depth, n int) {
+	refs := base.Referrers()
+	if refs == nil || n > 6 {
+		return
+	}
+	reaches := func(st *ssa.Store) bool {
+		if w.use == nil || st.Parent() != w.use.Parent() {
+			return true
+		}
+		return reachableAvoiding(st, w.use, func(ssa.Instruction) bool { return false })
+	}
+	for _, r := range *refs {
+		switch t := r.(type) {
+		case *ssa.Store:
+			if t.Addr == base && reaches(t) {
+				w.walk(t.Val, depth) // the whole (sub)value is overwritten
+			}
+		case *ssa.FieldAddr:
+			if t.X != base {
+				continue
+			}
+			if len(path) == 0 {
+				w.allocPath(t, nil, depth, n+1) // something inside the part
+			} else if t.Field == path[0] {
+				w.allocPath(t, path[1:], depth, n+1)
+			}
+		case *ssa.IndexAddr:
+			if t.X == base && len(path) == 0 {
+				w.allocPath(t, nil, depth, n+1)
+			}
+		}
 	}
 }
 
@@ -227,7 +340,12 @@ func (w *provWalker) walk(v ssa.Value, depth int) {
 	case *ssa.Global:
 		w.roots["g:"+x.Pkg.Pkg.Name()+"."+x.Name()] = true
 	case *ssa.Function:
-		w.roots["fn"] = true
+		// which function is handed on matters (the tree hasher or the plain one, this backend's method or that one's)
+		if o, ok := x.Object().(*types.Func); ok && x.Parent() == nil {
+			w.roots["fn:"+o.FullName()] = true
+		} else {
+			w.roots["fn"] = true
+		}
 	case *ssa.Builtin:
 	case *ssa.Alloc:
 		// a local cell or a literal: everything stored into it that can reach the use
@@ -259,7 +377,7 @@ func (w *provWalker) walk(v ssa.Value, depth int) {
 									w.walk(t.Val, depth)
 								}
 							case *ssa.FieldAddr:
-								if t.X == a {
+								if t.X == a && !isNewField(t) {
 									sub(t, n+1)
 								}
 							case *ssa.IndexAddr:
@@ -268,6 +386,9 @@ func (w *provWalker) walk(v ssa.Value, depth int) {
 								}
 							}
 						}
+					}
+					if fa, isFA := s.(*ssa.FieldAddr); isFA && isNewField(fa) {
+						break // a field the reference struct does not have: what it is initialised with is no part of what the value was
 					}
 					sub(s.(ssa.Value), 0)
 				case *ssa.MakeClosure:
@@ -325,7 +446,12 @@ func (w *provWalker) walk(v ssa.Value, depth int) {
 			w.walk(e, depth)
 		}
 	case *ssa.MakeClosure:
-		w.roots["fn"] = true
+		// a bound method value is the method; a function literal is "a literal"
+		if f, ok := x.Fn.(*ssa.Function); ok && f.Synthetic != "" && f.Object() != nil {
+			w.roots["fn:"+f.Object().Name()] = true
+		} else {
+			w.roots["fn:literal"] = true
+		}
 	case *ssa.MakeMap, *ssa.MakeSlice, *ssa.MakeChan:
 		w.roots["make"] = true
 	case *ssa.Next:
@@ -349,7 +475,7 @@ func provOf(fn *ssa.Function, use ssa.Instruction, v ssa.Value) string {
 	w := &provWalker{fn: fn, use: use, top: stripConv(v), roots: map[string]bool{}, seen: map[ssa.Value]int{}}
 	w.walk(v, 0)
 	if w.overflow {
-		return "*"
+		return provCut
 	}
 	var rs []string
 	for r := range w.roots {
@@ -358,6 +484,9 @@ func provOf(fn *ssa.Function, use ssa.Instruction, v ssa.Value) string {
 	sort.Strings(rs)
 	return strings.Join(rs, ",")
 }
+
+// provCut marks a provenance whose backward slice hit the size bound.
+const provCut = "<slice cut off>"
 
 type provSite struct {
 	tuple string
@@ -392,7 +521,7 @@ var provSigs = map[string][]string{}
 func collectProv(p *Program, pkgs []string) map[string]map[string][]provSite {
 	out := map[string]map[string][]provSite{}
 	for _, rel := range pkgs {
-		for _, tf := range p.pkgFuncs(rel) {
+		for _, tf := range p.srcFuncs(rel) {
 			withAnon(tf, func(g *ssa.Function) {
 				fk := refKey(g)
 				if fk == "" {
@@ -443,6 +572,18 @@ func collectProv(p *Program, pkgs []string) map[string]map[string][]provSite {
 						}
 						if len(parts) > 0 {
 							add("RET", strings.Join(parts, " ; "), x.Pos())
+						}
+						return
+					case *ssa.MapUpdate:
+						add("MAPKEY", provOf(g, ins, x.Key), x.Pos())
+						return
+					case *ssa.Lookup:
+						if _, isMap := x.X.Type().Underlying().(*types.Map); isMap {
+							pos := x.Pos()
+							if !pos.IsValid() {
+								pos = g.Pos()
+							}
+							add("MAPKEY", provOf(g, ins, x.Index), pos)
 						}
 						return
 					case *ssa.Store:
@@ -563,6 +704,17 @@ func runProvDrift(c *Ctx, pkgs []string) {
 		if strings.Join(ref.Sigs[fk], "|") != strings.Join(provSigs[fk], "|") && !gateOpen(ref.Sigs[fk], provSigs[fk], refDefined, curDefined) {
 			continue // a helper was extracted or inlined: the provenance of every site changes shape, not judged
 		}
+		if lost, gained := replacedCalls(ref.Sigs[fk], provSigs[fk], refDefined, curDefined); len(lost) > 0 && len(gained) > 0 {
+			pos := token.NoPos
+			for _, ss := range cur[fk] {
+				if len(ss) > 0 && (pos == token.NoPos || ss[0].pos < pos) {
+					pos = ss[0].pos
+				}
+			}
+			c.Fail(fk, "same-calls", c.Pos(pos), fmt.Sprintf("a call of %s was replaced by a call of %s – both exist on the reference tree, so this is not a helper that was extracted or inlined but a different operation in the place of the old one (the unvalidated variant instead of the validated one, the other backend's method, a different library routine)", strings.Join(lost, ", "), strings.Join(gained, ", ")))
+		} else {
+			c.Pass(fk, "same-calls", "-", "no call was replaced by a call of another existing function")
+		}
 		var ids []string
 		for id := range cur[fk] {
 			ids = append(ids, id)
@@ -575,12 +727,12 @@ func runProvDrift(c *Ctx, pkgs []string) {
 			}
 			wild := false
 			for _, t := range want {
-				if strings.Contains(t, "*") {
+				if strings.Contains(t, provCut) {
 					wild = true
 				}
 			}
 			for _, st := range cur[fk][id] {
-				if strings.Contains(st.tuple, "*") {
+				if strings.Contains(st.tuple, provCut) {
 					wild = true
 				}
 			}
@@ -626,6 +778,8 @@ func runProvDrift(c *Ctx, pkgs []string) {
 				what = "a return hands back values it never returns"
 			case strings.HasPrefix(id, "ST:"):
 				what = "a field (" + short + ") is assigned a value it is never assigned"
+			case id == "MAPKEY":
+				what = "a map is indexed with a key it is never indexed with"
 			}
 			c.Fail(fk, "same-inputs "+short, c.Pos(bad.pos), fmt.Sprintf("%s on the reference tree (the function has the same number of such sites and the same calls): now built from {%s}; on the reference tree {%s} – a different variable, field or result is used", what, bad.tuple, strings.Join(was, " | ")))
 		}
